@@ -18,7 +18,9 @@ func lemma_C03_CP2(t uint8, t1 uint16, v1 []byte, t2 uint16, v2 []byte) {
 	x := &Configuration{ConfigurationType: t}
 	x.ConfigurationAttribute.BuildConfigurationAttribute(t1, v1)
 	x.ConfigurationAttribute.BuildConfigurationAttribute(t2, v2)
+	fm := verifFrameBegin()
 	b, err := x.Marshal()
+	verifFrameEnd(fm, "C20/CP/marshal-writes-nothing-that-existed-before")
 	verifAssert(err == nil, "C03/CP/marshal-ok")
 	verifAssert(x.ConfigurationType == t && len(x.ConfigurationAttribute) == 2 && x.ConfigurationAttribute[0].Type == t1 && x.ConfigurationAttribute[1].Type == t2 &&
 		verifBytesEq(x.ConfigurationAttribute[0].Value, v1) && verifBytesEq(x.ConfigurationAttribute[1].Value, v2), "C20/CP/marshal-leaves-the-payload-unchanged")
@@ -27,7 +29,10 @@ func lemma_C03_CP2(t uint8, t1 uint16, v1 []byte, t2 uint16, v2 []byte) {
 	verifAssert(b[4] == byte(t1>>8) && b[5] == byte(t1) && int(b[6])<<8|int(b[7]) == n1 && verifBytesEq(b[8:8+n1], v1), "C05/CP/first-attribute-tlv")
 	verifAssert(b[8+n1] == byte(t2>>8) && b[9+n1] == byte(t2) && int(b[10+n1])<<8|int(b[11+n1]) == len(v2) && verifBytesEq(b[12+n1:], v2), "C05/CP/second-attribute-tlv")
 	y := new(Configuration)
+	fd := verifFrameBegin()
+	verifFrameAllow(fd, y)
 	verifAssert(y.Unmarshal(b) == nil, "C03/CP/unmarshal-ok")
+	verifFrameEnd(fd, "C20/CP/unmarshal-writes-only-the-payload-object")
 	verifAssert(y.ConfigurationType == t && len(y.ConfigurationAttribute) == 2, "C03/CP/type-and-count")
 	a1, a2 := y.ConfigurationAttribute[0], y.ConfigurationAttribute[1]
 	verifAssert(a1.Type == t1 && verifBytesEq(a1.Value, v1) && a2.Type == t2 && verifBytesEq(a2.Value, v2), "C03/CP/attributes-in-order")
@@ -103,12 +108,17 @@ func verifC12CP(b []byte, n int) {
 //verif:unroll (*message.Delete).Unmarshal#loop1 3 assert
 func lemma_C03_Delete2(proto uint8, s1, s2 uint32) {
 	x := &Delete{ProtocolID: proto, SPISize: 4, NumberOfSPI: 2, SPIs: []uint32{s1, s2}}
+	fm := verifFrameBegin()
 	b, err := x.Marshal()
+	verifFrameEnd(fm, "C20/Delete/marshal-writes-nothing-that-existed-before")
 	verifAssert(err == nil, "C03/Delete/marshal-ok")
 	verifAssert(len(b) == 12 && b[0] == proto && b[1] == 4 && b[2] == 0 && b[3] == 2, "C05/Delete/header")
 	verifAssert(uint32(b[4])<<24|uint32(b[5])<<16|uint32(b[6])<<8|uint32(b[7]) == s1 && uint32(b[8])<<24|uint32(b[9])<<16|uint32(b[10])<<8|uint32(b[11]) == s2, "C05/Delete/spis-big-endian")
 	y := new(Delete)
+	fd := verifFrameBegin()
+	verifFrameAllow(fd, y)
 	verifAssert(y.Unmarshal(b) == nil, "C03/Delete/unmarshal-ok")
+	verifFrameEnd(fd, "C20/Delete/unmarshal-writes-only-the-payload-object")
 	verifAssert(y.ProtocolID == proto && y.SPISize == 4 && y.NumberOfSPI == 2 && len(y.SPIs) == 2 && y.SPIs[0] == s1 && y.SPIs[1] == s2, "C03/Delete/fields")
 }
 
@@ -188,14 +198,19 @@ func verifTSi2(six1 bool, p1 uint8, sp1, ep1 uint16, sa1, ea1 []byte, six2 bool,
 	verifAssume(len(sa1) == n1 && len(ea1) == n1 && len(sa2) == n2 && len(ea2) == n2)
 	x := new(TrafficSelectorInitiator)
 	x.TrafficSelectors = append(x.TrafficSelectors, verifSelector(six1, p1, sp1, ep1, sa1, ea1), verifSelector(six2, p2, sp2, ep2, sa2, ea2))
+	fm := verifFrameBegin()
 	b, err := x.Marshal()
+	verifFrameEnd(fm, "C20/TSi/marshal-writes-nothing-that-existed-before")
 	verifAssert(err == nil, "C03/TSi/marshal-ok")
 	verifAssert(verifSelectorEq(x.TrafficSelectors[0], six1, p1, sp1, ep1, sa1, ea1) && verifSelectorEq(x.TrafficSelectors[1], six2, p2, sp2, ep2, sa2, ea2), "C20/TSi/marshal-leaves-the-payload-unchanged")
 	verifAssert(len(b) == 4+8+2*n1+8+2*n2 && b[0] == 2 && b[1] == 0 && b[2] == 0 && b[3] == 0, "C05/TSi/count-and-reserved-zero")
 	verifAssert(verifSelectorLayout(b, 4, six1, p1, sp1, ep1, sa1, ea1), "C05/TSi/first-selector-layout")
 	verifAssert(verifSelectorLayout(b, 12+2*n1, six2, p2, sp2, ep2, sa2, ea2), "C05/TSi/second-selector-layout")
 	y := new(TrafficSelectorInitiator)
+	fd := verifFrameBegin()
+	verifFrameAllow(fd, y)
 	verifAssert(y.Unmarshal(b) == nil, "C03/TSi/unmarshal-ok")
+	verifFrameEnd(fd, "C20/TSi/unmarshal-writes-only-the-payload-object")
 	verifAssert(len(y.TrafficSelectors) == 2, "C03/TSi/count")
 	verifAssert(verifSelectorEq(y.TrafficSelectors[0], six1, p1, sp1, ep1, sa1, ea1) && verifSelectorEq(y.TrafficSelectors[1], six2, p2, sp2, ep2, sa2, ea2), "C03/TSi/selectors-in-order")
 	verifAssert(verifDisjoint(y.TrafficSelectors[0].StartAddress, b) && verifDisjoint(y.TrafficSelectors[1].EndAddress, b), "C20/TSi/owns-data")
@@ -206,14 +221,19 @@ func verifTSr2(six1 bool, p1 uint8, sp1, ep1 uint16, sa1, ea1 []byte, six2 bool,
 	verifAssume(len(sa1) == n1 && len(ea1) == n1 && len(sa2) == n2 && len(ea2) == n2)
 	x := new(TrafficSelectorResponder)
 	x.TrafficSelectors = append(x.TrafficSelectors, verifSelector(six1, p1, sp1, ep1, sa1, ea1), verifSelector(six2, p2, sp2, ep2, sa2, ea2))
+	fm := verifFrameBegin()
 	b, err := x.Marshal()
+	verifFrameEnd(fm, "C20/TSr/marshal-writes-nothing-that-existed-before")
 	verifAssert(err == nil, "C03/TSr/marshal-ok")
 	verifAssert(verifSelectorEq(x.TrafficSelectors[0], six1, p1, sp1, ep1, sa1, ea1) && verifSelectorEq(x.TrafficSelectors[1], six2, p2, sp2, ep2, sa2, ea2), "C20/TSr/marshal-leaves-the-payload-unchanged")
 	verifAssert(len(b) == 4+8+2*n1+8+2*n2 && b[0] == 2 && b[1] == 0 && b[2] == 0 && b[3] == 0, "C05/TSr/count-and-reserved-zero")
 	verifAssert(verifSelectorLayout(b, 4, six1, p1, sp1, ep1, sa1, ea1), "C05/TSr/first-selector-layout")
 	verifAssert(verifSelectorLayout(b, 12+2*n1, six2, p2, sp2, ep2, sa2, ea2), "C05/TSr/second-selector-layout")
 	y := new(TrafficSelectorResponder)
+	fd := verifFrameBegin()
+	verifFrameAllow(fd, y)
 	verifAssert(y.Unmarshal(b) == nil, "C03/TSr/unmarshal-ok")
+	verifFrameEnd(fd, "C20/TSr/unmarshal-writes-only-the-payload-object")
 	verifAssert(len(y.TrafficSelectors) == 2, "C03/TSr/count")
 	verifAssert(verifSelectorEq(y.TrafficSelectors[0], six1, p1, sp1, ep1, sa1, ea1) && verifSelectorEq(y.TrafficSelectors[1], six2, p2, sp2, ep2, sa2, ea2), "C03/TSr/selectors-in-order")
 	verifAssert(verifDisjoint(y.TrafficSelectors[0].StartAddress, b) && verifDisjoint(y.TrafficSelectors[1].EndAddress, b), "C20/TSr/owns-data")
@@ -293,7 +313,9 @@ func lemma_C03_SA_tv(num, proto uint8, id1, at, av, id2 uint16) {
 	p := x.Proposals.BuildProposal(num, proto, spi)
 	p.EncryptionAlgorithm.BuildTransform(TypeEncryptionAlgorithm, id1, &at, &av, nil)
 	p.IntegrityAlgorithm.BuildTransform(TypeIntegrityAlgorithm, id2, nil, nil, nil)
+	fm := verifFrameBegin()
 	b, err := x.Marshal()
+	verifFrameEnd(fm, "C20/SA/marshal-writes-nothing-that-existed-before")
 	verifAssert(err == nil, "C03/SA/marshal-ok")
 	verifAssert(len(x.Proposals) == 1 && len(p.EncryptionAlgorithm) == 1 && len(p.IntegrityAlgorithm) == 1 && p.ProposalNumber == num && p.ProtocolID == proto &&
 		p.EncryptionAlgorithm[0].TransformID == id1 && p.EncryptionAlgorithm[0].AttributeType == at && p.EncryptionAlgorithm[0].AttributeValue == av && p.IntegrityAlgorithm[0].TransformID == id2, "C20/SA/marshal-leaves-the-payload-unchanged")
@@ -305,7 +327,10 @@ func lemma_C03_SA_tv(num, proto uint8, id1, at, av, id2 uint16) {
 	verifAssert(b[o+8] == 0x80|byte(at>>8) && b[o+9] == byte(at) && b[o+10] == byte(av>>8) && b[o+11] == byte(av), "C05/SA/tv-attribute-af-bit-and-15-bit-type")
 	verifAssert(b[o+12] == 0 && b[o+13] == 0 && b[o+14] == 0 && b[o+15] == 8 && b[o+16] == 3 && b[o+17] == 0 && b[o+18] == byte(id2>>8) && b[o+19] == byte(id2), "C05/SA/last-transform-header-marker-0")
 	y := new(SecurityAssociation)
+	fd := verifFrameBegin()
+	verifFrameAllow(fd, y)
 	verifAssert(y.Unmarshal(b) == nil, "C03/SA/unmarshal-ok")
+	verifFrameEnd(fd, "C20/SA/unmarshal-writes-only-the-payload-object")
 	verifAssert(len(y.Proposals) == 1, "C03/SA/one-proposal")
 	q := y.Proposals[0]
 	verifAssert(q.ProposalNumber == num && q.ProtocolID == proto && verifBytesEq(q.SPI, spi), "C03/SA/proposal-fields")
@@ -328,13 +353,18 @@ func lemma_C03_SA_tlv(num, proto uint8, id1, at uint16, vv []byte) {
 	x := new(SecurityAssociation)
 	p := x.Proposals.BuildProposal(num, proto, nil)
 	p.PseudorandomFunction.BuildTransform(TypePseudorandomFunction, id1, &at, nil, vv)
+	fm := verifFrameBegin()
 	b, err := x.Marshal()
+	verifFrameEnd(fm, "C20/SA/tlv/marshal-writes-nothing-that-existed-before")
 	verifAssert(err == nil, "C03/SA/tlv-marshal-ok")
 	verifAssert(len(b) == 8+12+len(vv) && b[0] == 0 && b[1] == 0 && int(b[2])<<8|int(b[3]) == len(b) && b[4] == num && b[5] == proto && b[6] == 0 && b[7] == 1, "C05/SA/tlv-proposal-header")
 	verifAssert(b[8] == 0 && b[9] == 0 && int(b[10])<<8|int(b[11]) == 12+len(vv) && b[12] == 2 && b[13] == 0 && b[14] == byte(id1>>8) && b[15] == byte(id1), "C05/SA/tlv-transform-header")
 	verifAssert(b[16] == byte(at>>8) && b[17] == byte(at) && int(b[18])<<8|int(b[19]) == len(vv) && verifBytesEq(b[20:], vv), "C05/SA/tlv-attribute-af-clear-length-value")
 	y := new(SecurityAssociation)
+	fd := verifFrameBegin()
+	verifFrameAllow(fd, y)
 	verifAssert(y.Unmarshal(b) == nil, "C03/SA/tlv-unmarshal-ok")
+	verifFrameEnd(fd, "C20/SA/tlv/unmarshal-writes-only-the-payload-object")
 	verifAssert(len(y.Proposals) == 1 && len(y.Proposals[0].PseudorandomFunction) == 1, "C03/SA/tlv-filed-under-its-type")
 	t := y.Proposals[0].PseudorandomFunction[0]
 	verifAssert(t.TransformType == 2 && t.TransformID == id1 && t.AttributePresent && t.AttributeFormat == 0 && t.AttributeType == at, "C03/SA/tlv-attribute-header-recovered")
@@ -366,13 +396,18 @@ func lemma_C03_SA_spi(num, proto uint8, spi []byte, tt uint8, id uint16) {
 	default:
 		p.ExtendedSequenceNumbers.BuildTransform(tt, id, nil, nil, nil)
 	}
+	fm := verifFrameBegin()
 	b, err := x.Marshal()
+	verifFrameEnd(fm, "C20/SA/spi/marshal-writes-nothing-that-existed-before")
 	verifAssert(err == nil, "C03/SA/spi-marshal-ok")
 	s := len(spi)
 	verifAssert(len(b) == 16+s && b[0] == 0 && b[1] == 0 && int(b[2])<<8|int(b[3]) == len(b) && b[4] == num && b[5] == proto && int(b[6]) == s && b[7] == 1 && verifBytesEq(b[8:8+s], spi), "C05/SA/spi-proposal-header")
 	verifAssert(b[8+s] == 0 && b[9+s] == 0 && b[10+s] == 0 && b[11+s] == 8 && b[12+s] == tt && b[13+s] == 0 && b[14+s] == byte(id>>8) && b[15+s] == byte(id), "C05/SA/spi-transform-follows-spi")
 	y := new(SecurityAssociation)
+	fd := verifFrameBegin()
+	verifFrameAllow(fd, y)
 	verifAssert(y.Unmarshal(b) == nil, "C03/SA/spi-unmarshal-ok")
+	verifFrameEnd(fd, "C20/SA/spi/unmarshal-writes-only-the-payload-object")
 	verifAssert(len(y.Proposals) == 1, "C03/SA/spi-one-proposal")
 	q := y.Proposals[0]
 	verifAssert(q.ProposalNumber == num && q.ProtocolID == proto && verifBytesEq(q.SPI, spi), "C03/SA/spi-proposal-fields")
